@@ -115,6 +115,9 @@ Definition attrs_spec (raw_reqs : list string) (accs : list bytes) : bool :=
   forallb (fun r => existsb (levels_match (normalize_name (bytes_of r))) accs) raw_reqs.
 
 (** ** Admission *)
+(** What the checks made after ValidateBasic demand.  For the two fill requests [ok] says that the
+    orders named in the request exist in this market, are of the other kind, belong to someone
+    else and add up to the stated total. *)
 Definition admit_spec (created : bool) (m : market) (accs : list bytes) (a : action) : bool :=
   created &&
   match a with
@@ -129,13 +132,138 @@ Definition admit_spec (created : bool) (m : market) (accs : list bytes) (a : act
   | ACommit cfee =>
       m_accepting_commitments m && attrs_spec (m_req_com m) accs
       && flat_fee_spec (m_create_com m) cfee
-  | AFillBids bprice sflat cfee =>
+  | AFillBids ok prices sflat cfee =>
       m_accepting_orders m && m_user_settle m && attrs_spec (m_req_ask m) accs
       && flat_fee_spec (m_create_ask m) cfee && flat_fee_spec (m_seller_flat m) sflat
-      && is_some (seller_ratio (m_seller_ratios m) (denom_of bprice))
-  | AFillAsks tprice sfees cfee =>
+      && ok
+      && forallb (fun p => is_some (seller_ratio (m_seller_ratios m) (denom_of p))) prices
+  | AFillAsks ok tprice sfees cfee =>
       m_accepting_orders m && m_user_settle m && attrs_spec (m_req_bid m) accs
       && flat_fee_spec (m_create_bid m) cfee
       && buyer_fee_spec (m_buyer_flat m) (m_buyer_ratios m) tprice sfees
+      && ok
       && is_some (seller_ratio (m_seller_ratios m) (denom_of tprice))
   end.
+
+(** A well-formed request: the price is positive; a set of fee coins holds positive amounts in
+    strictly ascending denoms (so no denom twice); a single optional fee coin is not negative,
+    and not zero where the message forbids that (seller settlement flat fee; the creation fee of
+    the two fill requests). *)
+Fixpoint strictly_ascending (l : list string) : bool :=
+  match l with
+  | a :: (b :: _) as r => String.ltb a b && strictly_ascending r
+  | _ => true
+  end.
+Definition coins_wf (l : list coin) : bool :=
+  forallb coin_pos l && strictly_ascending (map denom_of l).
+
+Definition request_wf (a : action) : bool :=
+  match a with
+  | ACreateAsk price sflat cfee => coin_pos price && opt_ok coin_pos sflat && opt_ok coin_nonneg cfee
+  | ACreateBid price sfees cfee => coin_pos price && coins_wf sfees && opt_ok coin_nonneg cfee
+  | ACommit cfee => opt_ok coin_nonneg cfee
+  | AFillBids _ _ sflat cfee => opt_ok coin_pos sflat && opt_ok coin_pos cfee
+  | AFillAsks _ tprice sfees cfee => coin_pos tprice && coins_wf sfees && opt_ok coin_pos cfee
+  end.
+
+(** What a message handler must decide. *)
+Definition admit_spec_msg (created : bool) (m : market) (accs : list bytes) (a : action) : bool :=
+  request_wf a && admit_spec created m accs a.
+
+(** ** Configuration changes, on the configuration as the market's operators wrote it *)
+
+(** A change of a required-attribute list: entries are compared in normalised form; every entry to
+    remove must currently be required, no entry to add may currently be required; the result is
+    the current entries that are not removed followed by the additions.  [None] = refused. *)
+Definition cfg_update_reqs (cur rem add : list string) : option (list string) :=
+  let n s := normalize_name (bytes_of s) in
+  let ncur := map n cur in
+  let nrem := map n rem in
+  let nadd := map n add in
+  if existsb (fun a => negb (mem_bytes a ncur)) nrem || existsb (fun a => mem_bytes a ncur) nadd
+  then None
+  else Some (filter (fun r => negb (mem_bytes (n r) nrem)) cur ++ add).
+
+Definition with_reqs (m : market) (ra rb rc : list string) : market :=
+  {| m_create_ask := m_create_ask m; m_create_bid := m_create_bid m; m_create_com := m_create_com m;
+     m_seller_flat := m_seller_flat m; m_seller_ratios := m_seller_ratios m;
+     m_buyer_flat := m_buyer_flat m; m_buyer_ratios := m_buyer_ratios m;
+     m_accepting_orders := m_accepting_orders m; m_user_settle := m_user_settle m;
+     m_accepting_commitments := m_accepting_commitments m;
+     m_req_ask := ra; m_req_bid := rb; m_req_com := rc;
+     m_bips := m_bips m; m_interm := m_interm m |}.
+
+(** A well-formed MsgMarketManageReqAttrs of an authorised admin is applied when all three list
+    changes are possible, otherwise it changes nothing. *)
+Definition cfg_manage_req_attrs (m : market) (a : attr_msg) : option market :=
+  if attr_msg_valid a && am_auth a then
+    match cfg_update_reqs (m_req_ask m) (am_ask_rem a) (am_ask_add a),
+          cfg_update_reqs (m_req_bid m) (am_bid_rem a) (am_bid_add a),
+          cfg_update_reqs (m_req_com m) (am_com_rem a) (am_com_add a) with
+    | Some ra, Some rb, Some rc => Some (with_reqs m ra rb rc)
+    | _, _, _ => None
+    end
+  else None.
+
+(** Fee changes act on the tables of the configuration directly ([manage_fees]: per denom /
+    denom pair, removals first, then the additions replace or extend). *)
+Definition step_cfg (m : market) (o : cfg_op) : market :=
+  match o with
+  | UFlags ao us ac => set_flags m ao us ac
+  | UFees f => manage_fees m f
+  | UAttrs a => match cfg_manage_req_attrs m a with Some m' => m' | None => m end
+  end.
+
+(** ** What a fee quote promises *)
+(** [pick l o]: [o] is one of the quoted options, or nothing when nothing is quoted. *)
+Definition pickb (l : list coin) (o : option coin) : bool :=
+  match l, o with
+  | [], None => true
+  | _ :: _, Some c => existsb (coin_eqb c) l
+  | _, _ => false
+  end.
+
+(** The fee [fee] offers at least [need] in every denom of [need]. *)
+Definition covers_coins (fee need : list coin) : bool :=
+  forallb (fun n => existsb (fun c => String.eqb (denom_of c) (denom_of n) && (amt_of n <=? amt_of c)) fee) need.
+
+(** The part of admission that is not about the fees offered: the market exists, takes that kind
+    of request, and the account carries the required attributes (and, for fills, the orders named
+    exist and the market has a seller ratio for every price denom involved, or none at all). *)
+Definition eligible_spec (created : bool) (m : market) (accs : list bytes) (a : action) : bool :=
+  created &&
+  match a with
+  | ACreateAsk _ _ _ => m_accepting_orders m && attrs_spec (m_req_ask m) accs
+  | ACreateBid _ _ _ => m_accepting_orders m && attrs_spec (m_req_bid m) accs
+  | ACommit _ => m_accepting_commitments m && attrs_spec (m_req_com m) accs
+  | AFillBids ok prices _ _ =>
+      m_accepting_orders m && m_user_settle m && attrs_spec (m_req_ask m) accs && ok
+      && forallb (fun p => is_some (seller_ratio (m_seller_ratios m) (denom_of p))) prices
+  | AFillAsks ok tprice _ _ =>
+      m_accepting_orders m && m_user_settle m && attrs_spec (m_req_bid m) accs && ok
+      && is_some (seller_ratio (m_seller_ratios m) (denom_of tprice))
+  end.
+
+(** ** What OrderFeeCalc must answer, from the configuration alone
+    The creation and flat options are the market's tables; the ratio options are the ceiling
+    charges ([ceil_div], no Go rounding code involved) of the ratios for the price denom: for an
+    ask the seller ratio of the price denom, for a bid every buyer ratio with that price denom.
+    The query must fail when the market has ratios of that side but none for the price denom. *)
+Definition quote_ask_spec (created : bool) (m : market) (price : coin) : option quote :=
+  if created then
+    match get_ratio (m_seller_ratios m) (denom_of price) (denom_of price), m_seller_ratios m with
+    | Some r, _ => Some (m_create_ask m, m_seller_flat m, [(r_fd r, ceil_div (amt_of price * r_fa r) (r_pa r))])
+    | None, [] => Some (m_create_ask m, m_seller_flat m, [])
+    | None, _ :: _ => None
+    end
+  else None.
+
+Definition quote_bid_spec (created : bool) (m : market) (price : coin) : option quote :=
+  if created then
+    match m_buyer_ratios m, filter (fun r => String.eqb (r_pd r) (denom_of price)) (m_buyer_ratios m) with
+    | [], _ => Some (m_create_bid m, m_buyer_flat m, [])
+    | _ :: _, [] => None
+    | _ :: _, l => Some (m_create_bid m, m_buyer_flat m,
+                         map (fun r => (r_fd r, ceil_div (amt_of price * r_fa r) (r_pa r))) l)
+    end
+  else None.
